@@ -283,3 +283,160 @@ def replay(obj):
     finally:
         drv.close()
     return bool(fail)
+
+
+# ----------------------------------------------------------------------------- near misses of similar=True
+# Code that LOOKS like the extracted piece but must not be replaced: the same code on another object (a parameter
+# whose class rope cannot know, an object of a known different class) when the piece uses `self`; the same
+# expression with a literal of equal value but another type (1 / 1.0 / True). Plus pieces that must be replaced
+# (the same code in another method on self).
+SELF_PIECES = ["{o}.k * p + q", "({o}.k + p) * q", "str({o}.k) + str(p)"]
+LITERAL_PIECES = [("p * 2 + q", {"float": "p * 2.0 + q", "bool": "p * 2 + q"}),
+                  ("(p + 1) * q", {"float": "(p + 1.0) * q", "bool": "(p + True) * q"}),
+                  ("[p, 3, q]", {"float": "[p, 3.0, q]", "bool": "[p, 3, q]"})]
+
+
+def gen_spec2(rng):
+    lit, twins = rng.choice(LITERAL_PIECES)
+    kind = rng.choice(["float", "float", "bool"])
+    return {"self_piece": rng.choice(SELF_PIECES), "lit_piece": lit, "twin": twins[kind], "twin_kind": kind,
+            "typed_call": rng.random() < 0.3, "order": rng.randint(0, 1)}
+
+
+def build2(spec):
+    """-> (source, occurrences); occurrences: (site, line, line, col0, col1)."""
+    out, occ = [], []
+
+    def use(site, ind, form, text):
+        line = " " * ind + form % text
+        out.append(line)
+        c0 = line.index(text)
+        occ.append((site, len(out), len(out), c0, c0 + len(text)))
+
+    sp, lp, tw = spec["self_piece"], spec["lit_piece"], spec["twin"]
+    out += ["class Other(object):", "    def __init__(self, k):", "        self.k = k", "", ""]
+    out += ["class K(object):", "    def __init__(self, k):", "        self.k = k", ""]
+    methods = []
+
+    def m_self1():
+        out.append("    def ms1(self, p, q):")
+        use("self1", 8, "w = %s", sp.format(o="self"))
+        out.extend(["        return w", ""])
+
+    def m_other():
+        out.append("    def mo(self, other, p, q):")
+        use("other", 8, "return %s", sp.format(o="other"))
+        out.append("")
+
+    def m_self2():
+        out.append("    def ms2(self, p, q):")
+        use("self2", 8, "print('m', %s)", sp.format(o="self"))
+        out.extend(["        return 2", ""])
+
+    def m_typed():
+        out.append("    def mt(self, p, q):")
+        out.append("        o = Other(7)")
+        use("typed", 8, "return %s", sp.format(o="o"))
+        out.append("")
+
+    def m_int():
+        out.append("    def mi(self, p, q):")
+        use("int_m", 8, "return %s", lp)
+        out.append("")
+
+    def m_twin():
+        out.append("    def mf(self, p, q):")
+        use("twin_m", 8, "return %s", tw)
+        out.append("")
+    methods = [m_self1, m_other, m_self2, m_typed, m_int, m_twin]
+    if spec["order"]:
+        methods = [m_other, m_twin, m_self1, m_typed, m_int, m_self2]
+    for m in methods:
+        m()
+    out.append("")
+    out.append("def fi(p, q):")
+    use("int_f", 4, "u = %s", lp)
+    use("twin_local", 4, "t = %s", tw)
+    out += ["    return (u, t)", "", ""]
+    out.append("def ft(p, q):")
+    use("twin_f", 4, "return %s", tw)
+    out += ["", ""]
+    out.append("for _a, _b in [(1, 2), (2, 3), (3, 0)]:")
+    out.append("    _x = (K if _a % 2 else Other)(_a + 1)")
+    out.append("    for _f in (K(5).ms1, K(5).ms2, K(5).mt, K(5).mi, K(5).mf, fi, ft):")
+    out.append("        try:")
+    out.append("            print(_f.__name__, _f(_a, _b))")
+    out.append("        except Exception as _e:")
+    out.append("            print(_f.__name__, type(_e).__name__)")
+    out.append("    try:")
+    out.append("        print('mo', getattr(K(5), 'm' + 'o')(_x, _a, _b))      # no call site of mo that rope can see")
+    out.append("    except Exception as _e:")
+    out.append("        print('mo', type(_e).__name__)")
+    if spec["typed_call"]:
+        out.append("print('direct', K(1).mo(K(2), 3, 4))")
+    return "\n".join(out) + "\n", occ
+
+
+def selections2(spec):
+    """(site, extract kind, options) tried on a near-miss module."""
+    res = [("self1", "method", {"similar": True}), ("self2", "method", {"similar": True}),
+           ("int_m", "method", {"similar": True}), ("int_f", "method", {"similar": True}),
+           ("int_f", "variable", {"similar": True}), ("int_f", "method", {"similar": True, "global_": True}),
+           ("int_m", "method", {"similar": True, "global_": True})]
+    return res
+
+
+def run_case2(drv, spec, site, kind, opts):
+    source, occ = build2(spec)
+    o = [x for x in occ if x[0] == site][0]
+    r = do_extract(drv, source, o, kind, opts)
+    obj = {"kind": "near", "spec2": spec, "site": site, "extract": kind, "opts": opts, "source": source}
+    if r["refused"]:
+        return obj, r, None
+    if r["error"]:
+        return obj, r, {"crash": r["error"]}
+    before = run_module(source)
+    after = run_module(r["new"])
+    if before != after:
+        k = 0
+        while k < min(len(before[0]), len(after[0])) and before[0][k] == after[0][k]:
+            k += 1
+        return obj, r, {"before": [before[0][k:k + 2], before[1]], "after": [after[0][k:k + 2], after[1]]}
+    return obj, r, None
+
+
+def near_signature(obj):
+    """Input shape + predicted failure of the one recorded defect of this stream; anything else is near:other."""
+    if obj["spec2"].get("typed_call") and obj["site"] in ("self1", "self2") and obj["extract"] == "method" \
+            and not obj["opts"].get("global_") and failure_kind(obj) == "output":
+        return "near:parameter-class-inferred-from-one-call-site:output"
+    return "near:other"
+
+
+def replay2(obj):
+    drv = E.Driver()
+    try:
+        _, r, fail = run_case2(drv, obj["spec2"], obj["site"], obj["extract"], obj["opts"])
+    finally:
+        drv.close()
+    return bool(fail)
+
+
+KNOWN_NEAR = [
+    {"id": "C03-similar-parameter-class-from-one-call-site",
+     "title": "extract method with similar=True from a method whose piece uses self: a single call site in the module "
+              "that passes an instance of the class makes rope treat another method's parameter as an instance of the "
+              "class, the same code on that parameter becomes `other.<new>()` and raises AttributeError for callers "
+              "that pass something else",
+     "spec2": {"self_piece": "{o}.k * p + q", "lit_piece": "p * 2 + q", "twin": "p * 2.0 + q", "twin_kind": "float",
+               "typed_call": True, "order": 0},
+     "site": "self1", "extract": "method", "opts": {"similar": True}, "expected_failure": "output"},
+]
+
+
+def known_near_obj(k):
+    source, _ = build2(k["spec2"])
+    obj = {"kind": "near", "spec2": k["spec2"], "site": k["site"], "extract": k["extract"], "opts": k["opts"],
+           "source": source, "expected_failure": k["expected_failure"]}
+    obj["class"] = near_signature(obj)
+    return obj
